@@ -69,22 +69,26 @@ func (k Keeper) UpdateDelegationAmount(ctx sdk.Context, delAddr sdk.AccAddress) 
 
 // RemoveDelegation updates the provider when its delegation is removed.
 func (k Keeper) RemoveDelegation(ctx sdk.Context, delAddr sdk.AccAddress, valAddr sdk.ValAddress) {
-	provider, found := k.GetProvider(ctx, delAddr)
-	if !found {
+	if _, found := k.GetProvider(ctx, delAddr); !found {
 		return
 	}
 
-	delegation, found := k.sk.GetDelegation(ctx, delAddr, valAddr)
-	if !found {
-		panic("delegation is not found")
+	// Recompute the stake from the delegations that remain (the one being removed is
+	// still in the store): subtracting from the recorded amount would carry over
+	// whatever that record missed, such as a slash of another validator.
+	totalStakedAmount := sdk.ZeroInt()
+	for _, del := range k.sk.GetAllDelegatorDelegations(ctx, delAddr) {
+		if del.GetValidatorAddr().Equals(valAddr) {
+			continue
+		}
+		val, found := k.sk.GetValidator(ctx, del.GetValidatorAddr())
+		if !found {
+			panic("expected validator, not found")
+		}
+		totalStakedAmount = totalStakedAmount.Add(val.TokensFromShares(del.GetShares()).TruncateInt())
 	}
-	validator, found := k.sk.GetValidator(ctx, valAddr)
-	if !found {
-		panic("validator is not found")
-	}
-	deltaAmount := validator.TokensFromShares(delegation.Shares).TruncateInt()
 
-	k.updateProviderForDelegationChanges(ctx, delAddr, provider.DelegationBonded.Sub(deltaAmount))
+	k.updateProviderForDelegationChanges(ctx, delAddr, totalStakedAmount)
 }
 
 // updateProviderForDelegationChanges updates provider based on delegation changes.
